@@ -11,6 +11,7 @@ import re
 import sys
 import textwrap
 import threading
+import zlib
 
 from chameleon.astutil import Builtin
 from chameleon.astutil import Comment
@@ -68,6 +69,16 @@ def identifier(prefix: str, suffix: str | None = None) -> str:
 
 def mangle(string: int | str) -> str:
     return RE_MANGLE.sub('_', str(string)).replace('\n', '').replace('-', '_')
+
+
+def mangle_slot(name: str) -> str:
+    # Slot names need not be identifiers. Names that differ only in
+    # such characters ("a-b", "a_b", "a.b") are different slots: they
+    # are told apart by a checksum of their spelling.
+    mangled = mangle(name)
+    if mangled != name:
+        mangled += "_%x" % (zlib.crc32(str(name).encode('utf-8')))
+    return mangled
 
 
 def load_econtext(name):
@@ -1773,7 +1784,7 @@ class Compiler:
         )
 
     def visit_DefineSlot(self, node):
-        name = "__slot_%s" % mangle(node.name)
+        name = "__slot_%s" % mangle_slot(node.name)
         body = self.visit(node.node)
 
         self._slots.add(name)
@@ -1854,9 +1865,9 @@ class Compiler:
         backups = set()
         fillers = []
         for slot in node.slots:
-            key = "__slot_%s" % mangle(slot.name)
-            fun = "__fill_%s" % mangle(slot.name)
-            backup = "__previous_slot_%s" % mangle(slot.name)
+            key = "__slot_%s" % mangle_slot(slot.name)
+            fun = "__fill_%s" % mangle_slot(slot.name)
+            backup = "__previous_slot_%s" % mangle_slot(slot.name)
 
             self._current_slot.append(slot.name)
 
@@ -1959,7 +1970,7 @@ class Compiler:
         # were offered to the enclosing macro are hidden from a macro
         # used in its body (they are passed on only when extending).
         keys = ast.Tuple(
-            elts=[ast.Constant("__slot_%s" % mangle(slot.name))
+            elts=[ast.Constant("__slot_%s" % mangle_slot(slot.name))
                   for slot in node.slots],
             ctx=ast.Load(),
         )
